@@ -203,6 +203,32 @@ CHECKS = {
         note='Patterns <= 6-8 over a 3-symbol alphabet, e2e patterns <= ~60 characters; offsets on the LF of a CR LF pair and the literal '
              'context format are drift only; non-termination is a settrace budget (300-2000 x len line events), not a proof about the Python loop.',
         technique='TLA+ error-context definition + loop model with liveness and negative configurations; TLC enumeration replayed into the code; TLC trace validation of recorded diagnostics'),
+    'C10': dict(
+        category='model_checking',
+        text='Escape.tla (CSSOM serialize-an-identifier) and IdentLex.tla (the CSS Syntax 3 identifier consumer as an explicit state machine); '
+             'TLC checks T-EscapeRoundTrip (IdentLex applied to Escape(s) + terminator consumes exactly Escape(s) and yields s with NUL->U+FFFD) '
+             'for every string of length <= 3-4 over 26 code-point classes (length 5 over 10) with 10 terminators, and explores the tokenizer as '
+             'behaviours with type/result invariants; every enumerated string (3 representatives per class incl. U+0080, U+009F, surrogates, '
+             'U+10FFFF) is replayed: real escape() never raises, #/./[a=] + escape(s) compile to exactly one id/class/attribute equal to s\', '
+             'the intended element among near-misses is selected, surrounding selectors stay intact; seeded random identifiers of length 5-30 '
+             'are recorded and validated by TLC (Trace_C10).',
+        design_ref='§6 C10',
+        note='Exhaustive only up to the length bounds and modulo the class abstraction; agreement of escape() with CSSOM byte-for-byte and of '
+             'IdentLex with the recorded output are drift, the gate is the round trip the property states; empty identifier out of scope.',
+        technique='TLA+ serializer + tokenizer state machine with a TLC-checked round-trip theorem; TLC enumeration replayed into escape/compile/select; TLC trace validation'),
+    'C18': dict(
+        category='model_checking',
+        text='Calendar.tla defines the HTML valid date/month/week/time/local date-time/number strings (years as digit strings of any length), '
+             'ordering incl. wrapping time ranges, and :in-range/:out-of-range; TLC checks 15 design-level theorems (period 400, Thursday rule = '
+             'ISO definition, 52/53 weeks, 71 long years per cycle, total orders, midnight wrap) and enumerates ~34k (thorough ~162k) <input> '
+             'elements as document states with the predicted sets: weeks for years 1..800 + digit-length representatives, day/month grid, hours, '
+             'minutes, every single-character mutation of a seed string per type, all 8^3 (min,max,value) triples per type; every gated '
+             'membership is compared with soupsieve; seeded random selects are recorded and accepted/rejected by TLC (Trace_C18).',
+        design_ref='§6 C18',
+        note='Open known finding F18 (week 53 accepted when 31 Dec lies in week 1 of the next year; pinned by the repository tests) is suppressed '
+             'only where the observed answer equals the spec with that single rule switched on; exponent / bare-dot numbers, seconds, XML type '
+             'case are ungated zones recorded as drift.',
+        technique='TLA+ calendar semantics with TLC-checked theorems; TLC enumeration replayed into the code; TLC trace validation with a known-finding variant pass'),
 }
 
 PENDING = {}
